@@ -3,10 +3,13 @@
 (* Servers are harness-owned TCP endpoints with their own keys; each event   *)
 (* of a critical section (SyncBegin, SyncPick, SyncApply, hooks under c.mu)  *)
 (* carries the client's identity state, SyncApply also the decoded files.    *)
-EXTENDS Client, Json
+EXTENDS Client, SchedRule, Json
 CONSTANTS DiagLine, RInvSel
-VARIABLES l, served   \* served[x]: what the server picked by round x was serving at the pick
-tvars == <<cvars, svars, l, served>>
+VARIABLES l, served,  \* served[x]: what the server picked by round x was serving at the pick
+          rstat,      \* rstat[x]: "free" | "run" | "applied" (round x of the trace), conc[x]: another round's
+          conc,       \*   result was recorded while x may already have stored its own
+          sch         \* the report loop's scheduling state (SchedRule.tla), see TLoopInit
+tvars == <<cvars, svars, l, served, rstat, conc, sch>>
 Trace == ndJsonDeserialize("trace.ndjson")
 Ev == Trace[l]
 
@@ -23,6 +26,9 @@ UState(st) == [gca |-> st.gca, id |-> st.id, srv |-> UMap(st.srv)]
 
 MatchMem(st) == cgca' = st.gca /\ cid' = st.id /\ csrv' = UMap(st.srv)
 MatchDisk(f) == cdisk' = UState(f)
+AllFree == [x \in RoundIds |-> "free"]
+NoConc == [x \in RoundIds |-> FALSE]
+NoSched == [on |-> FALSE, ticks |-> 0, poss |-> {}, nl |-> 0, nb |-> 0, lflag |-> FALSE, closing |-> FALSE]
 NoServedR == [mode |-> "none"]
 NoServed == [x \in RoundIds |-> NoServedR]
 (* the round an event belongs to: the driver names the goroutine; events of   *)
@@ -38,18 +44,22 @@ TReset ==
   /\ Ev.a = "Reset"
   /\ cgca' = "none" /\ cid' = 0 /\ csrv' = <<>> /\ primary' = "zero"
   /\ cdisk' = [gca |-> "none", id |-> 0, srv |-> <<>>] /\ mutex' = "free" /\ rnd' = Idle
-  /\ served' = NoServed
+  /\ served' = NoServed /\ rstat' = AllFree /\ conc' = NoConc /\ sch' = NoSched
 TFiles ==    \* the driver prepared / an operator edited the client directory
   /\ Ev.a = "CliFiles" /\ cdisk' = UState(Ev.files)
-  /\ UNCHANGED <<cgca, cid, csrv, primary, mutex, rnd, served>>
+  /\ UNCHANGED <<cgca, cid, csrv, primary, mutex, rnd, served, rstat, conc, sch>>
 TStart ==
   /\ Ev.a = "ClientStart" /\ Ev.ok
   /\ ClientReload(Ev.state.primary)
   /\ MatchMem(Ev.state)
-  /\ served' = NoServed
+  /\ served' = NoServed /\ rstat' = AllFree /\ conc' = NoConc /\ UNCHANGED sch
 TBegin ==
   /\ Ev.a = "SyncBegin" /\ Rid \in RoundIds /\ RoundBegin(Rid) /\ MatchMem(Ev.state)
+  /\ rstat[Rid] = "free"
   /\ served' = [served EXCEPT ![Rid] = NoServedR]
+  /\ rstat' = [rstat EXCEPT ![Rid] = "run"] /\ conc' = [conc EXCEPT ![Rid] = FALSE]
+  \* a round started by the report loop was launched by it before
+  /\ IF sch.on THEN sch.nb < sch.nl /\ sch' = [sch EXCEPT !.nb = @ + 1] ELSE UNCHANGED sch
 TPick ==     \* a new pick: the previous one (if any) failed
   /\ Ev.a = "SyncPick" /\ Rid \in RoundIds
   /\ LET x == Rid IN
@@ -60,7 +70,7 @@ TPick ==     \* a new pick: the previous one (if any) failed
         /\ primary' = Ev.server
         /\ rnd' = [rnd EXCEPT ![x].failed = f, ![x].attempts = @ + 1, ![x].cur = Ev.server]
      /\ served' = [served EXCEPT ![x] = [mode |-> Ev.serving.mode, reply |-> Ev.serving.reply]]
-  /\ MatchMem(Ev.state) /\ UNCHANGED <<cdisk, mutex>>
+  /\ MatchMem(Ev.state) /\ UNCHANGED <<cdisk, mutex, rstat, conc, sch>>
 TApply ==
   /\ Ev.a = "SyncApply" /\ Rid \in RoundIds
   /\ served[Rid].mode = "reply"
@@ -68,6 +78,7 @@ TApply ==
   /\ served[Rid].reply.key = Ev.dev
   /\ MatchMem(Ev.state) /\ MatchDisk(Ev.files)
   /\ served' = [served EXCEPT ![Rid] = NoServedR]
+  /\ rstat' = [rstat EXCEPT ![Rid] = "applied"] /\ UNCHANGED <<conc, sch>>
 TEnd ==
   /\ Ev.a = "RoundEnd" /\ Rid \in RoundIds
   /\ Ev.panic = ""
@@ -82,13 +93,67 @@ TEnd ==
   /\ (cgca' = Ev.state.gca /\ cid' = Ev.state.id /\ csrv' = UMap(Ev.state.srv))
   /\ cdisk' = UState(Ev.files)
   /\ served' = [served EXCEPT ![Rid] = NoServedR]
+  /\ rstat' = [rstat EXCEPT ![Rid] = "free"] /\ UNCHANGED <<conc, sch>>
+
+(* ---- scheduling of rounds by the report loop (events of the loop goroutine and of the goroutines *)
+(* it launches; none of them is under a lock, the tracer serialises them)                           *)
+Exhausted(x) ==    \* round x may have given up: five attempts made, or nothing left to pick
+  /\ rstat[x] = "run" /\ rnd[x].phase = "picking"
+  /\ LET f == IF rnd[x].attempts > 0 THEN rnd[x].failed \cup {rnd[x].cur} ELSE rnd[x].failed IN
+     (rnd[x].attempts >= 5 \/ {k \in DOMAIN csrv : ~csrv[k].banned /\ k \notin f} = {})
+MayHaveStored(x) == rstat[x] = "applied" \/ Exhausted(x) \/ (sch.closing /\ rstat[x] = "run")
+(* the values syncStatus may hold now: what is known, or the result of a round that may already have *)
+(* stored it although its SyncReturn event is not recorded yet                                        *)
+PossNow ==
+  sch.poss \cup {1 : x \in {y \in RoundIds : rstat[y] = "applied"}}
+           \cup {0 : x \in {y \in RoundIds : Exhausted(y) \/ (sch.closing /\ rstat[y] = "run")}}
+           \cup (IF sch.closing THEN {0, 1} ELSE {})
+TLoopInit ==
+  /\ Ev.a = "LoopInit"
+  /\ Ev.ticks = StartTicks
+  /\ Ev.status = (IF Ev.recent THEN 1 ELSE 0)       \* the last successful sync is recent, or not
+  /\ sch' = [on |-> TRUE, ticks |-> Ev.ticks, poss |-> {Ev.status}, nl |-> 0, nb |-> 0, lflag |-> FALSE, closing |-> FALSE]
+  /\ UNCHANGED <<svars, served, rstat, conc>>
+TLaunch ==
+  /\ Ev.a = "SyncLaunch" /\ sch.on /\ ~sch.lflag
+  /\ sch' = [sch EXCEPT !.lflag = TRUE, !.nl = @ + 1]
+  /\ UNCHANGED <<svars, served, rstat, conc>>
+TTick ==     \* one iteration of the loop is over: the decision taken fits the rule for a possible status
+  /\ Ev.a = "LoopTick" /\ sch.on
+  /\ LET t1 == sch.ticks + 1
+         fit == {st \in PossNow : Decide(t1, st) = sch.lflag} IN
+     /\ fit # {}
+     /\ Ev.ticks = (IF sch.lflag THEN 0 ELSE t1)
+     /\ sch' = [sch EXCEPT !.ticks = Ev.ticks, !.lflag = FALSE, !.poss = fit]
+  /\ UNCHANGED <<svars, served, rstat, conc>>
+TReturn ==   \* the goroutine of a launched round stored the round's result
+  /\ Ev.a = "SyncReturn" /\ Rid \in RoundIds /\ sch.on
+  /\ LET x == Rid
+         v == IF Ev.ok THEN 1 ELSE 0 IN
+     /\ IF Ev.ok THEN rstat[x] = "applied" /\ UNCHANGED svars
+        ELSE /\ rstat[x] = "run"
+             /\ (sch.closing \/ (Exhausted(x) /\ (rnd[x].attempts > 0 => PrevFailedOK(x, Ev.dev))))
+             /\ rnd' = [rnd EXCEPT ![x] = IdleR] /\ UNCHANGED <<cgca, cid, csrv, primary, cdisk, mutex>>
+     /\ sch' = [sch EXCEPT !.poss = IF conc[x] THEN @ \cup {v} ELSE {v}]
+     /\ conc' = [y \in RoundIds |-> IF y = x THEN FALSE ELSE (conc[y] \/ MayHaveStored(y))]
+     /\ rstat' = [rstat EXCEPT ![x] = "free"]
+     /\ served' = [served EXCEPT ![x] = NoServedR]
+TClosing ==
+  /\ Ev.a = "ClientClosing"
+  /\ sch' = [sch EXCEPT !.closing = TRUE]
+  /\ UNCHANGED <<svars, served, rstat, conc>>
+TQuiesce ==  \* the loop is parked and every launched round has returned: each launch became a round
+  /\ Ev.a = "SchedQuiesce" /\ sch.on
+  /\ sch.nb = sch.nl /\ \A x \in RoundIds : rstat[x] = "free"
+  /\ UNCHANGED <<svars, served, rstat, conc, sch>>
 TProbe ==    \* after the round the report loop still completes an iteration
   /\ Ev.a = "LoopProbe" /\ Ev.ok
-  /\ UNCHANGED <<svars, served>>
+  /\ UNCHANGED <<svars, served, rstat, conc, sch>>
 TNoise ==
   /\ Ev.a \in {"Send", "LoopRead", "LoopDone", "ClientClose", "Setup", "DriverNote", "Resyncs"}
   /\ (Ev.a = "Resyncs" => Ev.n >= 2)    \* after failed rounds the loop starts new rounds by itself
-  /\ UNCHANGED <<svars, served>>
+  /\ UNCHANGED <<svars, served, rstat, conc>>
+  /\ sch' = IF Ev.a = "ClientClose" THEN NoSched ELSE sch
 
 RInvByName(n) ==
   CASE n = "BannedMonotone" -> (Ev.a # "Reset" => BannedMonotoneStep)
@@ -99,11 +164,13 @@ RInvByName(n) ==
 
 TNext ==
   /\ l <= Len(Trace) /\ l' = l + 1
-  /\ (IF l = DiagLine THEN PrintT(<<"DIAG", l, Ev, "cgca", cgca, "csrv", csrv, "primary", primary, "rnd", rnd, "served", served, "cdisk", cdisk>>) ELSE TRUE)
-  /\ (TReset \/ TFiles \/ TStart \/ TBegin \/ TPick \/ TApply \/ TEnd \/ TProbe \/ TNoise)
+  /\ (IF l = DiagLine THEN PrintT(<<"DIAG", l, Ev, "cgca", cgca, "csrv", csrv, "primary", primary, "rnd", rnd, "served", served, "cdisk", cdisk,
+                                    "rstat", rstat, "conc", conc, "sch", sch>>) ELSE TRUE)
+  /\ (TReset \/ TFiles \/ TStart \/ TBegin \/ TPick \/ TApply \/ TEnd \/ TProbe \/ TNoise
+      \/ TLoopInit \/ TLaunch \/ TTick \/ TReturn \/ TClosing \/ TQuiesce)
   /\ UNCHANGED cvars
   /\ \A n \in RInvSel : IF l = DiagLine THEN (IF RInvByName(n) THEN TRUE ELSE PrintT(<<"DIAG invariant fails", n>>))
                         ELSE RInvByName(n)
-TSpec == CInit /\ SInit /\ l = 1 /\ served = NoServed /\ [][TNext]_tvars
+TSpec == CInit /\ SInit /\ l = 1 /\ served = NoServed /\ rstat = AllFree /\ conc = NoConc /\ sch = NoSched /\ [][TNext]_tvars
 Accepted == TLCGet("stats").diameter - 1 = Len(Trace)
 =============================================================================
